@@ -7,15 +7,30 @@ import random
 import common
 import pool_trace
 
-OWNER = {  # which property owns a model guard / predicate
-    "dependency-not-completed": "C11", "inherited-state-wrong": "C11",
-    "no-free-core": "C12", "core-not-held": "C12", "core-already-held": "C12",
-    "more-processes-alive-than-cores": "C12", "free-core-idle-while-task-ready": "C12",
+OWNER = {  # which properties own a model guard (first rejected label of a trace)
+    "dependency-not-completed": ("C11", "C13"), "inherited-state-wrong": ("C11", "C13"),
+    "no-free-core": ("C12",), "core-not-held": ("C12",), "core-already-held": ("C12",),
+    "more-processes-alive-than-cores": ("C12",), "free-core-idle-while-task-ready": ("C12",),
+    "process-still-alive": ("C12", "C13"),          # a core given back while the task's process lives
+    "finished-holding-core": ("C12", "C13"), "finished-with-process-alive": ("C12", "C13"),
+}
+
+# oracle conjuncts that a second property's statement covers as well: C13 says "failed if a dependency
+# failed, cancelled if a dependency was cancelled; completed iff its process ran and exited 0", so a
+# dependent that runs or ends wrongly after a bad dependency breaks C13 too (C11 owns the ordering)
+ALSO = {
+    "C13": ("C11:dependent-of-failed-task-wrong-final-state", "C11:started-although-dependency-did-not-complete",
+            "C11:started-although-dependency-did-not-exit-0"),
 }
 
 
-def owner_of(reason):
-    return OWNER.get(reason, "C13")
+def owners_of(reason):
+    return OWNER.get(reason, ("C13",))
+
+
+def owned_by(prop, conjunct):
+    """conjunct: 'Cxx:name[=…]'"""
+    return conjunct.startswith(prop + ":") or any(conjunct.startswith(a) for a in ALSO.get(prop, ()))
 
 
 def gen_ops(rng, nops, fine):
@@ -123,7 +138,7 @@ def check_pool(chk, prop, cases, label):
             extra.append("C12:core-permits-after-drain=%s-configured=%s" % (r["sem_value"], cores))
         if r["max_alive"] > cores:
             extra.append("C12:more-processes-alive-than-cores")
-        mine = [x for x in oracle + extra if x.startswith(prop + ":")]
+        mine = [x for x in oracle + extra if owned_by(prop, x)]
         replay = {"kind": "history", "input": {"cores": cores, "ops": ops, "fine": fine, "yield_in_spawn": yis},
                   "labels": " ".join(r["labels"]), "model_verdict": out[:600], "final_states": r["states"]}
         if mine:
@@ -132,7 +147,7 @@ def check_pool(chk, prop, cases, label):
             chk.violation(sig, replay)
         else:
             # only the FIRST issue of a trace is reliable: afterwards the model state was force-resynchronised
-            owned = [x for x in issues[:1] if owner_of(x.split(":")[1]) == prop]
+            owned = [x for x in issues[:1] if prop in owners_of(x.split(":")[1])]
             if owned:
                 chk.count("model-rejects")
                 chk.proof.ok = False
@@ -228,7 +243,7 @@ def real_process_runs(chk, prop, n):
                 if res["states"].get(k) != "COMPLETED":
                     fails.append("C13:task-that-exited-0-not-completed")
                     break
-        mine = [f for f in fails if f.startswith(prop + ":")]
+        mine = [f for f in fails if owned_by(prop, f)]
         if mine:
             chk.violation({"kind": "real-process", "conjunct": mine[0].split(":")[1]},
                           {"kind": "history", "input": {"real_process_scenario": i, "cores": cores}, "implementation": res,
